@@ -141,11 +141,15 @@ func tagIncludeParser(doc *Parser, start *Token, arguments *Parser) (INodeTag, *
 				missing = true
 			} else {
 				e := err.(*Error).updateFromTokenIfNeeded(doc.template, filenameToken)
-				if e.Line == 0 {
+				if e.Line == 0 && e.Sender == "fromfile" && e.Filename == includedFilename && e.OrigError == errTemplateNotFound {
 					// The error names the file that could not be loaded and has no position
 					// in it. The message of a failed static include has always read "in
 					// <that file> | Line/Col of this tag" (the test-suite expects it), so
-					// the tag's position is added here, and only here.
+					// the tag's position is added here, and only here - and only when it is
+					// the named file itself that could not be loaded: any other error without
+					// a position that comes back (a nesting-depth error, the missing parent
+					// of the included template) names a source in which this tag's position
+					// means nothing.
 					e.Token, e.Line, e.Column = filenameToken, filenameToken.Line, filenameToken.Col
 				}
 				return nil, e
